@@ -16,7 +16,7 @@ From Apko Require Import Base.Prelude Base.Regex Generated.Regexes Generated.Ind
   Model.Index Spec.IndexSpec Proofs.IndexProofs Model.IndexCache Proofs.IndexCacheProofs
   Model.IndexBytes Spec.IndexBytesSpec Proofs.IndexBytesProofs Model.IndexVctx Proofs.IndexVctxProofs
   Model.IndexWiring Model.IndexCacheFiles Spec.IndexHistSpec Proofs.IndexHistProofs
-  Model.IndexRsa Proofs.IndexRsaProofs.
+  Model.IndexRsa Proofs.IndexRsaProofs Model.IndexCacheEtag.
 Open Scope string_scope. Open Scope list_scope.
 
 (* With checking on, an accepted archive carries, in its first member, an entry
@@ -627,3 +627,28 @@ Example c04_rsa_stages_example :
   rsa_verify_digest (list N) (list N) N (list N) (fun _ _ => true) pem pkix pk [1; 8]%N SHA256 [5]%N [5]%N = false /\
   pkix_rsa_key (list N) (list N) N pem pkix [9]%N = None.
 Proof. repeat split; vm_compute; reflexivity. Qed.
+
+(* ---- remote indexes served with an ETag (final round) -----------------------------------------
+   The remote branch of the index cache: a result — index or error — per (repository, verification
+   context, ETag), looked up by the exact ETag the server announces, the entry of the previously
+   recorded ETag forgotten when a new one is fetched. Over every history in which the server's index
+   changes between calls (the version record's fv_mtime carries the ETag's number): every version a
+   call returns is one the repository served and is authorised by that call, and a repository whose
+   version in place has a visibly new ETag (later than every earlier one) is used only if THAT
+   version is authorised by the call. (A server that reuses an ETag for other content cannot be
+   seen through; what is returned then was still verified in the same context.) *)
+Theorem c04_etag_cache_sound : forall loc arch evs w,
+  FilesHold loc arch w (answered evs (erun loc arch vctx vctx_eqb (ctx_fixed loc arch) w ([], []) evs)).
+Proof. exact etag_fixed_holds. Qed.
+Print Assumptions c04_etag_cache_sound.
+
+(* non-vacuity: good under ETag 1, replaced by an unsigned index under ETag 2, asked twice, the server
+   goes back to ETag 1 with the good index: fetched again, because the entry of ETag 1 was forgotten *)
+Example c04_etag_example :
+  let c := {| rc_repos := [0%nat]; rc_keys := ["alice"]; rc_ignore := false; rc_exempt := []; o_err := false; o_got := [] |} in
+  erun (fun _ => "repo") "x86_64" vctx vctx_eqb (ctx_fixed (fun _ => "repo") "x86_64") (fun _ => []) ([], [])
+    [ EvRewrite 0%nat {| fv_id := 1%nat; fv_signer := Some "alice"; fv_mtime := 1%N; fv_parses := true |}; EvCall c [];
+      EvRewrite 0%nat {| fv_id := 2%nat; fv_signer := None; fv_mtime := 2%N; fv_parses := true |}; EvCall c []; EvCall c [];
+      EvRewrite 0%nat {| fv_id := 3%nat; fv_signer := Some "alice"; fv_mtime := 1%N; fv_parses := true |}; EvCall c [] ]
+  = [AnsRewrite; AnsCall false [(0%nat, 1%nat)]; AnsRewrite; AnsCall true []; AnsCall true []; AnsRewrite; AnsCall false [(0%nat, 3%nat)]].
+Proof. vm_compute. reflexivity. Qed.
